@@ -10,7 +10,7 @@ seedck.py <PROP> <n> [check ids...]   confirm a seeded change produced by an ind
 import json, os, re, shutil, subprocess, sys, time
 
 GOENV = dict(os.environ, GOFLAGS="-mod=mod", GOPROXY="off", GOSUMDB="off", GOTOOLCHAIN="local")
-WT = "/tmp/seedck/wt"
+WT = "/tmp/seedck/wt"  # per seed: see main
 
 
 def sh(cmd, cwd=None, timeout=1800, env=GOENV):
@@ -19,7 +19,9 @@ def sh(cmd, cwd=None, timeout=1800, env=GOENV):
 
 
 def main():
+    global WT
     prop, n = sys.argv[1], sys.argv[2]
+    WT = "/tmp/seedck/wt-%s-%s" % (prop, n.replace(":", ""))
     checks = sys.argv[3:] or [prop]
     rnd = ""
     if re.match(r"r[0-9]:", n):
@@ -80,16 +82,25 @@ def main():
     os.makedirs(sd)
     shutil.copy(patch, os.path.join(sd, "patch.diff"))
     shutil.copytree(os.path.join(out, "demo"), os.path.join(sd, "demo"))
-    # try the checks
-    assert sh("git status --porcelain", cwd="/repo")[1].strip() == "", "/repo not clean"
+    # try the checks — in a private copy of /verif (as it is now, warm build included) against a private worktree of /repo, so that
+    # /verif and /repo stay free for other work while this runs
+    ws = "/tmp/seedck/ws-%s-%s%s" % (prop, rnd, n)
+    sh("git -C /repo worktree remove --force %s/repo" % ws)
+    shutil.rmtree(ws, ignore_errors=True)
+    os.makedirs(ws)
+    sh("rsync -a --exclude .git --exclude replays --exclude seeded --exclude harmless /verif/ %s/verif/" % ws)
+    rc, o = sh("git -C /repo worktree add -q --detach %s/repo HEAD" % ws)
+    assert rc == 0, o
     results = {}
-    rc, o = sh(["git", "-C", "/repo", "apply", patch])
+    rc, o = sh(["git", "apply", patch], cwd=ws + "/repo")
+    assert rc == 0, o
+    env = dict(GOENV, VERIF_REPO=ws + "/repo")
     try:
         for c in checks:
             t = time.time()
-            rc, o = sh(["./check", c], cwd="/verif", env=dict(os.environ), timeout=3000)
+            rc, o = sh(["./check", c], cwd=ws + "/verif", env=env, timeout=3000)
             line = [l for l in o.splitlines() if l.startswith("VIOLATION")]
-            results[c] = {"exit": rc, "violation": line[0] if line else "", "summary": o.strip().splitlines()[-1] if o.strip() else "", "wall_s": round(time.time() - t, 1)}
+            results[c] = {"exit": rc, "violation": line[0].replace(ws, "") if line else "", "summary": o.strip().splitlines()[-1] if o.strip() else "", "wall_s": round(time.time() - t, 1)}
             rp = re.search(r"replay=(\S+)", line[0]) if line else None
             if rp and os.path.exists(rp.group(1)):
                 r = json.load(open(rp.group(1)))
@@ -98,15 +109,14 @@ def main():
                 results[c]["detail"] = (r.get("detail") or "")[:400]
             print(c, results[c])
     finally:
-        sh("git checkout -- . && git clean -qfd pkg cmd", cwd="/repo")
+        sh("git -C /repo worktree remove --force %s/repo" % ws)
+        shutil.rmtree(ws, ignore_errors=True)
     meta_out = {"property": prop, "title": meta.get("title"), "breaks": meta.get("breaks"), "needs": meta.get("needs"), "files": meta.get("files"),
                 "author": "independent sub-agent given only the property text and a scratch worktree", "agent_ran": meta.get("ran"),
                 "confirmed_here": ran, "repo_head": head, "checks": results,
                 "caught_by": [c for c, r in results.items() if r["exit"] == 1 and r["violation"]]}
     json.dump(meta_out, open(os.path.join(sd, "meta.json"), "w"), indent=1)
-    # leave the evidence files of the unchanged tree in place: re-run the checks on the clean tree
-    for c in checks:
-        sh(["./check", c], cwd="/verif", env=dict(os.environ), timeout=3000)
+    sh("git -C /repo worktree remove --force %s" % WT)
     print("caught_by:", meta_out["caught_by"])
 
 
